@@ -596,6 +596,8 @@ def run(ctx):
     r6_target_derivation(ctx)
     r10_no_test_that_cannot_match(ctx)
     r11_header_text_is_utf8_both_ways(ctx)
+    from . import C01 as _C01r
+    _C01r.r10_forwarding_slices(ctx)    # the rest of the request body is relayed as it is read: one read, one frame with exactly those bytes (no second awaited read before the first chunk is passed on)
     r7_parsing_totality(ctx)
     r4_rewriting(ctx)
     C16.accept_loop_rules(ctx, "R17.5", HP + "start_http_proxy_server", "http_proxy::handle_http_proxy_connection", "http")
